@@ -7,7 +7,7 @@ MIX = ("Mixed check: obligations listed under coverage.unbounded_obligations are
 
 PROPS["C06"] = dict(
     level="other", claimed=True, verus=True,
-    level_text='Verus (unit oodv, body cut out of /repo, abstract element decoder and slice reader): OodFrame::parse for EVERY trace width, evaluation count, Lagrange frame size and byte content - it accepts exactly the canonical encodings (each of the three sections is fully consumed, the frame has exactly 2 rows of exactly the trace's width, a Lagrange frame only with an auxiliary segment), returns the de-interleaved decoded rows, and cannot overflow or index out of range on any input. Totality contracts (never panics, never overflows, no out-of-bounds index, no unchecked allocation size) on the deserializers a proof passes through, decided by Kani on the real functions with fully symbolic header bytes (fixed-size headers for every byte string, variable-size payloads up to the stated bound), including the conjectured and the proven security estimate (libm results arbitrary). verify() end to end is covered by bounded native stand-ins only: every damaged version (bit flips, byte extremes, truncations, structured edits of every length-prefixed component, crafted option sets) of the proofs of two pipelines is parsed and verified without a panic.',
+    level_text='Verus (unit oodv, body cut out of /repo, abstract element decoder and slice reader): OodFrame::parse for EVERY trace width, evaluation count, Lagrange frame size and byte content - it accepts exactly the canonical encodings (each of the three sections is fully consumed, the frame has exactly 2 rows of exactly the trace width, a Lagrange frame only with an auxiliary segment), returns the de-interleaved decoded rows, and cannot overflow or index out of range on any input. Totality contracts (never panics, never overflows, no out-of-bounds index, no unchecked allocation size) on the deserializers a proof passes through, decided by Kani on the real functions with fully symbolic header bytes (fixed-size headers for every byte string, variable-size payloads up to the stated bound), including the conjectured and the proven security estimate (libm results arbitrary). verify() end to end is covered by bounded native stand-ins only: every damaged version (bit flips, byte extremes, truncations, structured edits of every length-prefixed component, crafted option sets) of the proofs of two pipelines is parsed and verified without a panic.',
     level_note="Bounded stand-ins are listed under coverage.native_bounded_standins and are not proofs. Not decided: verify() for all byte strings; allocation proportionality beyond read_many's capacity. Panics raised by the example / test AIR's own Air::new on foreign trace shapes are user code and counted separately. Trusted: Kani/CBMC, the alloc::fmt::format stub (message text only).",
     explanation=MIX)
 PROPS["C12"] = dict(
@@ -83,7 +83,7 @@ PROPS["C04"] = dict(
     explanation=MIX)
 PROPS["C03"] = dict(
     level="other", claimed=True, verus=True,
-    level_text='Verus (unit oodv, body cut out of /repo, abstract element decoder and slice reader): OodFrame::parse for EVERY trace width, evaluation count, Lagrange frame size and byte content - it accepts exactly the canonical encodings (each of the three sections is fully consumed, the frame has exactly 2 rows of exactly the trace's width, a Lagrange frame only with an auxiliary segment), returns the de-interleaved decoded rows, and cannot overflow or index out of range on any input. Kani: canonical decoding of proof components on the real parsers (OodFrame: no ignored bytes, frame size fixed; Commitments: every byte consumed; Queries container; Table); the FRI remainder is bound to its commitment. Native bounded stand-ins: every single-bit flip (every 5th bit in the quick tier), byte extreme and truncation of small proofs of two pipelines, and structured edits of every length-prefixed component (shortened, lengthened, emptied; FRI layers removed / duplicated / swapped; optional GKR proof added / removed / resized; counts off by one), are refused; every single-element and shape mutation of Merkle batch openings is refused.',
+    level_text='Verus (unit oodv, body cut out of /repo, abstract element decoder and slice reader): OodFrame::parse for EVERY trace width, evaluation count, Lagrange frame size and byte content - it accepts exactly the canonical encodings (each of the three sections is fully consumed, the frame has exactly 2 rows of exactly the trace width, a Lagrange frame only with an auxiliary segment), returns the de-interleaved decoded rows, and cannot overflow or index out of range on any input. Kani: canonical decoding of proof components on the real parsers (OodFrame: no ignored bytes, frame size fixed; Commitments: every byte consumed; Queries container; Table); the FRI remainder is bound to its commitment. Native bounded stand-ins: every single-bit flip (every 5th bit in the quick tier), byte extreme and truncation of small proofs of two pipelines, and structured edits of every length-prefixed component (shortened, lengthened, emptied; FRI layers removed / duplicated / swapped; optional GKR proof added / removed / resized; counts off by one), are refused; every single-element and shape mutation of Merkle batch openings is refused.',
     level_note='Bounded (stated per obligation / stand-in). Not decided: adaptive substitutions that need the query positions for components other than the FRI remainder; proofs of all sizes. The FRI partition count is layout-only metadata and excluded, as the property states.',
     explanation=MIX)
 
